@@ -138,7 +138,7 @@ def arg_code(atom, n, v):
     if isinstance(atom, A.ArrOut):
         d = ["%s, allocatable :: %s(:)" % (atom.t.fdecl, z)]
         return d, ["allocate(%s(%d))" % (z, v)], [z, "%d_C_INT" % v], [obs_array(atom.t, z)]
-    if isinstance(atom, (A.CStrIn, A.StrIn)):
+    if isinstance(atom, (A.CStrIn, A.StrIn, A.CStrInImplied)):
         return [], [], [fstr(v)], []
     if isinstance(atom, A.CStrOut):
         return ["character(len=%d) :: %s" % (v, z)], [], [z], ["call obs_s(%s)" % z]
